@@ -116,17 +116,34 @@ def theorems_of(prop_file):
     return re.findall(r"^\s*Theorem\s+([A-Za-z0-9_']+)", text, re.M)
 
 
-def forbidden_scan():
+def coq_closure(prop_file):
+    """.v files (relative to coq/) the property file transitively depends on, via coqdep."""
+    seen, todo = set(), [prop_file]
+    while todo:
+        f = todo.pop()
+        if f in seen or not os.path.exists(os.path.join(COQ, f)):
+            continue
+        seen.add(f)
+        rc, out = run(["coqdep", "-Q", ".", "TV", f], cwd=COQ, timeout=120)
+        for m in re.finditer(r"(\S+)\.vo\b", out.split(":", 1)[1] if ":" in out else ""):
+            dep = m.group(1) + ".v"
+            if not dep.startswith("/") and dep not in seen:
+                todo.append(dep)
+    return sorted(seen)
+
+
+def forbidden_scan(prop_file=None):
     bad = []
-    for f in coq_files():
+    files = coq_closure(prop_file) if prop_file else coq_files()
+    for f in files:
         if f.startswith("Generated/"):
             continue
         text = open(os.path.join(COQ, f)).read()
-        # strip comments (non-nested is enough for the tokens we look for; nested handled by loop)
+        # strip comments (innermost first, repeated for nesting)
         prev = None
         while prev != text:
             prev = text
-            text = re.sub(r"\(\*[^*(]*(?:\*(?!\))[^*(]*|\((?!\*)[^*(]*)*\*\)", " ", text)
+            text = re.sub(r"\(\*(?:(?!\(\*|\*\)).)*\*\)", " ", text, flags=re.S)
         for m in FORBIDDEN.finditer(text):
             bad.append("%s: %s" % (f, m.group(0)))
     return bad
@@ -153,6 +170,7 @@ def print_assumptions(pid, prop_file, thms):
             res[name] = {"ok": True, "axioms": []}
         else:
             axs = re.findall(r"^([A-Za-z_][A-Za-z0-9_.']*)\s*:", body, re.M)
+            axs = [a for a in axs if a not in ("Axioms", "Section", "Opaque", "Transparent", "Variables")]
             bad = [a for a in axs if a not in AXIOM_ALLOW and a.split(".")[-1] not in AXIOM_ALLOW]
             res[name] = {"ok": not bad, "axioms": axs, "not_allowed": bad}
     for t in thms:
